@@ -142,7 +142,7 @@ def tlc(module, cfg=None, env=None, workers=1, timeout=1200, xmx="3g", extra=(),
     elif not os.path.isabs(cfg):
         cfg = os.path.join(os.path.dirname(mod), cfg)
     md = tempfile.mkdtemp(prefix="tlcmd-", dir=scratch.dir if scratch else None)
-    cmd = ["timeout", str(timeout)] + tlc_cmd(xmx) + ["-workers", str(workers), "-metadir", md, "-config", cfg] + list(extra) + [mod]
+    cmd = ["timeout", str(timeout)] + tlc_cmd(xmx) + ["-workers", str(workers), "-noGenerateSpecTE", "-metadir", md, "-config", cfg] + list(extra) + [mod]
     rc, out = sh(cmd, timeout=timeout + 30, env=env, cwd=cwd or md)
     shutil.rmtree(md, ignore_errors=True)
     return TlcResult(rc, out)
@@ -166,11 +166,22 @@ def split_trace(path, nchunks, outdir, group_marker=None, min_lines=2000):
     if n == 0:
         return []
     per = max(min_lines, (n + nchunks - 1) // nchunks)
-    chunks, cur, start = [], [], 0
     gm = group_marker.encode() if group_marker else None
+    if gm is None:
+        # stateless trace: deal lines round-robin so that expensive regions are spread over all chunks
+        k = max(1, min(nchunks, (n + min_lines - 1) // min_lines))
+        chunks = [(-1, lines[i::k]) for i in range(k)]
+        res = []
+        for i, (st, c) in enumerate(chunks):
+            p = os.path.join(outdir, "%s.c%03d.ndjson" % (os.path.basename(path), i))
+            with open(p, "wb") as f:
+                f.writelines(c)
+            res.append((p, (i, k), len(c)))
+        return res
+    chunks, cur, start = [], [], 0
     for i, ln in enumerate(lines):
         cur.append(ln)
-        if len(cur) >= per and (gm is None or ln.strip() == gm):
+        if len(cur) >= per and ln.strip() == gm:
             chunks.append((start, cur))
             start, cur = i + 1, []
     if cur:
@@ -192,6 +203,7 @@ class Validation:
         self.mismatches = []     # (trace_path, global_line_index0, json_text, tlc_text)
         self.known = {}          # id -> count
         self.known_samples = {}  # id -> json_text
+        self.by_info = {}        # info string of MISMATCH lines -> count
         self.failures = []       # TLC could not finish a chunk: (chunk_path, tail)
         self.states = 0
         self.generated = 0
@@ -221,8 +233,11 @@ def validate_trace(trace_module, trace_path, scratch, cfg=None, group_marker=Non
         for ml in r.printed("MISMATCH"):
             m = re.match(r'<<"MISMATCH", (\d+)', ml)
             li = int(m.group(1)) - 1 if m else 0
-            if len(v.mismatches) < keep_max:
-                v.mismatches.append((trace_path, st + li, lines[li].strip() if li < len(lines) else "", ml))
+            info = ml.split(",", 2)[2].strip(" >") if ml.count(",") >= 2 else ""
+            v.by_info[info] = v.by_info.get(info, 0) + 1
+            if v.by_info[info] <= 3 and len([x for x in v.mismatches if x]) < keep_max:
+                gi = st[0] + li * st[1] if isinstance(st, tuple) else st + li
+                v.mismatches.append((trace_path, gi, lines[li].strip() if li < len(lines) else "", ml))
             else:
                 v.mismatches.append(None)
         for kl in r.printed("KNOWN"):
